@@ -58,7 +58,7 @@ def gen_cases(rng, tier):
             continue
         cases.append({'m': m, 'sites8': [list(p) for p in pts], 'labels': labels, 'outer': outer, 'inner': inner,
                       'mr': rng.choice([0, 0, 1, 2, 3, 5]), 'dim': rng.randint(1, 3), 'tseed': rng.randrange(10**6),
-                      'dt': rng.choice([1e-15, 2e-15, 2.5e-15])})
+                      'dt': rng.choice([1e-15, 2e-15, 2.5e-15]), 'site_scale': rng.choice([1.0, 1.0, 1.05])})
     return cases
 
 
@@ -67,7 +67,9 @@ def impl(case):
     from gemdat.transitions import Transitions, _calculate_transition_events
     m = case['m']
     frac = [[c / 8 for c in p] for p in case['sites8']]
-    sites = synth.make_sites(m, frac, labels=[LABELS[k] for k in case['labels']])
+    # the site structure may be given in a slightly different cell than the simulation; distances are those of the simulation cell
+    sc = case.get('site_scale', 1.0)
+    sites = synth.make_sites([[v * sc for v in row] for row in m], frac, labels=[LABELS[k] for k in case['labels']])
     states = np.array(case['outer'], dtype=int).T
     inner = np.array(case['inner'], dtype=int).T
     T, na = states.shape
@@ -77,6 +79,7 @@ def impl(case):
     ev = _calculate_transition_events(atom_sites=states, atom_inner_sites=inner)
     tr = Transitions(trajectory=traj, diff_trajectory=traj, sites=sites, events=ev, states=states, inner_states=inner)
     out = {'events': [[int(v) for v in row] for row in ev[['start site', 'destination site']].to_numpy()]}
+    guard = synth.InputGuard(transitions=tr, trajectory=traj, sites=sites)
     out['tmat'] = tr.matrix().tolist()
     occ = tr.occupancy()
     out['occ'] = [float(s.species.num_atoms) for s in occ]
@@ -88,6 +91,7 @@ def impl(case):
         if 'No jumps found' not in str(e):
             raise
         out['nojumps'] = True
+        out['inputs_changed'] = guard.changed()
         return out
     d = j.data
     out['jumps'] = [[int(v) for v in row] for row in d[['start site', 'destination site']].to_numpy()]
@@ -100,6 +104,7 @@ def impl(case):
     out['edges'] = sorted([int(a), int(b)] for a, b in g.edges())
     out['nodes'] = sorted(int(x) for x in g.nodes())
     out['pdist2'] = (traj.get_lattice().get_all_distances(sites.frac_coords, sites.frac_coords) ** 2).tolist()
+    out['inputs_changed'] = guard.changed()
     return out
 
 
@@ -122,7 +127,7 @@ def _factor(case):
 def oracle(case, out):
     if 'tmat' not in out:
         return [('c05/harness-error', f"{out.get('error')}: {out.get('msg')} {out.get('tb', '')[-300:]}")]
-    fs = []
+    fs = synth.inputs_clause(out, 'Transitions / Jumps bookkeeping')
     n = len(case['sites8'])
     T, na = len(case['outer'][0]), len(case['outer'])
     # Transitions.matrix: entry (i,j) = number of recorded moves i -> j
